@@ -34,7 +34,7 @@ for f in sorted(glob.glob(H + "/seeded/*/meta.json")):
     conf = "%s / %s / %s" % ("yes" if c["existing_suite_nonok_lines"] == 0 else "NO", "yes" if c["demo_fails_with_change"] else "NO", "yes" if c["demo_passes_without_change"] else "NO")
     out.append("| %s | %s | %s | %s | %s | %s | %s |" % (m["seed"], m["breaks_property"], conf, " ".join(m["checks_that_fire"]) or "none", st, m.get("rule", ""), m.get("note", "")))
 out.append("\n%d seeded changes: %d caught by the checks as they stood when the change arrived, %d caught after a rule was added or tightened in response, %d not caught (reasons in the note column).\n" % (n, first, later, missed))
-out.append("### 10.3 Behaviour-preserving refactorings (written by sub-agents that saw only the property text; every check must stay silent)\n")
+out.append("### 10.3 Behaviour-preserving refactorings (`_r`, `_s`: written by sub-agents that saw only the property text; `_t`: the restructuring of a round-3 seed without its behavioural difference; every check must stay silent)\n")
 out.append("| refactoring | suite passes | checks that fired when it arrived | cause | correction | checks that fire now |")
 out.append("|---|---|---|---|---|---|")
 for f in sorted(glob.glob(H + "/refactors/*/meta.json")):
